@@ -325,7 +325,13 @@ func doRead(b []byte, flipAtPoll, flipAtRead int, match *pollSite, reason string
 	return doReadIO(b, flipAtPoll, flipAtRead, match, nil, reason)
 }
 
+// mapSalt: every simulated read restarts the runtime's random sequence (map seeds and iteration
+// offsets) from it, so the order in which the reader walks its object table is the same in the
+// counting run, in every cancelled run and in a replay - and differs between units / seeds.
+var mapSalt uint64
+
 func doReadIO(b []byte, flipAtPoll, flipAtRead int, match *pollSite, matchIO *ioSite, reason string) (out readOutcome) {
+	runtime.VerifSetMapRand(mapSalt ^ 0xC10C10C10)
 	sc := newSimCtx()
 	sc.reason = reasonOf(reason)
 	rs := &countRS{r: bytes.NewReader(b), ctx: sc, flipAtRead: flipAtRead, matchIO: matchIO, seekOcc: map[int64]int{}}
@@ -370,6 +376,7 @@ type C10Replay struct {
 	Site       *pollSite `json:"poll_site,omitempty"`
 	N          int       `json:"io_call,omitempty"`
 	IOSite     *ioSite   `json:"io_site,omitempty"`
+	MapSalt    uint64    `json:"map_salt,omitempty"`
 }
 
 var quickDocs = []docSpec{
@@ -410,6 +417,50 @@ func objCount(ctx *model.Context) int {
 	return len(ctx.XRefTable.Table)
 }
 
+// tableDigest lists, per object number, whether the entry is free and which kind of object was
+// loaded for it (nil = not loaded). A read that reports success must have built the same table as
+// the uncancelled read: an object that was skipped because its parse was interrupted shows here
+// although the number of entries is the same.
+func tableDigest(ctx *model.Context) []string {
+	if ctx == nil || ctx.XRefTable == nil {
+		return nil
+	}
+	nrs := make([]int, 0, len(ctx.XRefTable.Table))
+	for nr := range ctx.XRefTable.Table {
+		nrs = append(nrs, nr)
+	}
+	sort.Ints(nrs)
+	out := make([]string, 0, len(nrs))
+	for _, nr := range nrs {
+		e := ctx.XRefTable.Table[nr]
+		if e == nil {
+			out = append(out, fmt.Sprintf("%d:nil-entry", nr))
+			continue
+		}
+		out = append(out, fmt.Sprintf("%d:free=%v:%T", nr, e.Free, e.Object))
+	}
+	return out
+}
+
+func digestDiff(a, b []string) string {
+	if len(a) != len(b) {
+		return fmt.Sprintf("%d entries vs %d", len(a), len(b))
+	}
+	n, first := 0, ""
+	for i := range a {
+		if a[i] != b[i] {
+			if n == 0 {
+				first = fmt.Sprintf("got %s, the uncancelled read has %s", a[i], b[i])
+			}
+			n++
+		}
+	}
+	if n == 0 {
+		return ""
+	}
+	return fmt.Sprintf("%d object(s) differ, first: %s", n, first)
+}
+
 // judge applies the oracle to one cancelled read.
 func judge(doc docSpec, mode string, k int, full, out readOutcome, rp C10Replay) []core.Violation {
 	var vs []core.Violation
@@ -440,6 +491,10 @@ func judge(doc docSpec, mode string, k int, full, out readOutcome, rp C10Replay)
 			mk("nil-nil", "", "neither a document nor an error")
 		} else if full.ctx != nil && (out.ctx.PageCount != full.ctx.PageCount || objCount(out.ctx) != objCount(full.ctx)) {
 			mk("incomplete-document", "", fmt.Sprintf("success after cancellation with a different document: pages %d vs %d, objects %d vs %d", out.ctx.PageCount, full.ctx.PageCount, objCount(out.ctx), objCount(full.ctx)))
+		} else if full.ctx != nil {
+			if d := digestDiff(tableDigest(out.ctx), tableDigest(full.ctx)); d != "" {
+				mk("incomplete-document", "", "success after cancellation, but the object table is not the one the uncancelled read builds: "+d)
+			}
 		}
 	}
 	if out.seen && (out.callsAfter > B || out.pollsAfter > B) {
@@ -469,6 +524,7 @@ func (c10) RunUnit(raw core.Unit, tier string, seed int64) core.UnitResult {
 		return res
 	}
 	rng := rand.New(rand.NewPCG(uint64(u.Seed), 10))
+	mapSalt = uint64(u.Seed)
 	full := doRead(b, 0, 0, nil, "")
 	res.Evaluations++
 	if full.err != nil || full.panicVal != nil {
@@ -532,7 +588,7 @@ func (c10) RunUnit(raw core.Unit, tier string, seed int64) core.UnitResult {
 		ctx, err := pdfcpu.ReadWithContext(cctx, rs, conf())
 		res.Evaluations++
 		res.FaultFired["cancel-pre"]++
-		rp := C10Replay{Doc: u.Doc, Mode: "pre-cancel"}
+		rp := C10Replay{Doc: u.Doc, Mode: "pre-cancel", MapSalt: mapSalt}
 		if ctx != nil || err == nil || !errors.Is(err, cctx.Err()) {
 			res.Violations = append(res.Violations, preViolation(u.Doc, "pre-cancel", ctx, err, rs.calls, rp))
 		}
@@ -542,7 +598,7 @@ func (c10) RunUnit(raw core.Unit, tier string, seed int64) core.UnitResult {
 		ctx, err = pdfcpu.ReadWithContext(dctx, rs2, conf())
 		cancel2()
 		res.Evaluations++
-		rp = C10Replay{Doc: u.Doc, Mode: "pre-deadline"}
+		rp = C10Replay{Doc: u.Doc, Mode: "pre-deadline", MapSalt: mapSalt}
 		if ctx != nil || err == nil || !errors.Is(err, context.DeadlineExceeded) {
 			res.Violations = append(res.Violations, preViolation(u.Doc, "pre-deadline", ctx, err, rs2.calls, rp))
 		}
@@ -567,7 +623,7 @@ func (c10) RunUnit(raw core.Unit, tier string, seed int64) core.UnitResult {
 		for _, k := range ks {
 			out := doRead(b, k, 0, nil, reason)
 			site := out.flipSite
-			record("poll", k, out, C10Replay{Doc: u.Doc, Mode: "poll", K: k, Site: &site, Reason: reason})
+			record("poll", k, out, C10Replay{Doc: u.Doc, Mode: "poll", K: k, Site: &site, Reason: reason, MapSalt: mapSalt})
 		}
 	}
 	// cancellation while the reader is inside the n-th Read
@@ -576,7 +632,7 @@ func (c10) RunUnit(raw core.Unit, tier string, seed int64) core.UnitResult {
 		reason := []string{"", "deadline"}[i%2]
 		out := doRead(b, 0, n, nil, reason)
 		at := out.flipIO
-		record("io", n, out, C10Replay{Doc: u.Doc, Mode: "io", N: n, IOSite: &at, Reason: reason})
+		record("io", n, out, C10Replay{Doc: u.Doc, Mode: "io", N: n, IOSite: &at, Reason: reason, MapSalt: mapSalt})
 	}
 	res.Probes["max_readseeker_calls_after_cancel_seen"] = maxAfterCalls
 	res.Probes["max_polls_after_cancel_seen"] = maxAfterPolls
@@ -600,6 +656,7 @@ func (c10) Replay(payload json.RawMessage) ([]core.Violation, error) {
 	if err != nil {
 		return nil, err
 	}
+	mapSalt = rp.MapSalt
 	full := doRead(b, 0, 0, nil, "")
 	switch rp.Mode {
 	case "pre-cancel", "pre-deadline":
@@ -626,8 +683,16 @@ func (c10) Replay(payload json.RawMessage) ([]core.Violation, error) {
 			out := doRead(b, 0, rp.N, nil, rp.Reason)
 			return judge(rp.Doc, "io", rp.N, full, out, rp), nil
 		}
-		// Which code path reaches this Read call depends on the order in which objects are dereferenced
-		// (Go map iteration, not seedable): the replay re-runs until the violation shows or 60 runs passed it.
+		// exact replay first: with the recorded map salt the n-th Read call is the same call as in the run
+		// that found the violation
+		if rp.N > 0 {
+			out := doRead(b, 0, rp.N, nil, rp.Reason)
+			if vs := judge(rp.Doc, "io", rp.N, full, out, rp); len(vs) > 0 {
+				fmt.Printf("exact replay (Read call %d, map salt %d): err=%v, %d calls and %d polls afterwards\n", rp.N, rp.MapSalt, out.err, out.callsAfter, out.pollsAfter)
+				return vs, nil
+			}
+		}
+		// fallback for a tree whose call sequence has shifted: address the Read call by its site
 		reached := 0
 		for attempt := 0; attempt < 60; attempt++ {
 			out := doReadIO(b, 0, 0, nil, rp.IOSite, rp.Reason)
@@ -649,7 +714,16 @@ func (c10) Replay(payload json.RawMessage) ([]core.Violation, error) {
 		if rp.Site == nil {
 			return nil, fmt.Errorf("replay file has no poll site")
 		}
-		// the poll index is not stable across runs (map iteration); the site triple is
+		// exact replay first: with the recorded map salt poll k is the same poll as in the run that
+		// found the violation
+		if rp.K > 0 {
+			out := doRead(b, rp.K, 0, nil, rp.Reason)
+			if vs := judge(rp.Doc, "poll", rp.K, full, out, rp); len(vs) > 0 {
+				fmt.Printf("exact replay (poll %d, map salt %d): cancelled at %+v: err=%v, %d calls and %d polls afterwards\n", rp.K, rp.MapSalt, out.flipSite, out.err, out.callsAfter, out.pollsAfter)
+				return vs, nil
+			}
+		}
+		// fallback for a tree whose poll sequence has shifted: the site triple
 		reached := 0
 		for attempt := 0; attempt < 60; attempt++ {
 			out := doRead(b, 0, 0, rp.Site, rp.Reason)
